@@ -91,33 +91,28 @@ Theorem C17_scalar_none_is_stored : forall d r, In d sdoc_table -> find_setter (
 Proof. exact scalar_none_is_stored_lemma. Qed.
 Print Assumptions C17_scalar_none_is_stored.
 
-(* scalars (current, diameter): every non-complex input is stored iff documented (None, any real; not negative for a
-   diameter) and otherwise rejected with the library's input error *)
+(* scalars (current, diameter): EVERY input -- None, a real number, a complex number, a non-number -- is stored iff
+   documented (None, any real; not negative for a diameter) and otherwise rejected with the library's input error
+   (before /repo 7a9b2fa a complex number raised TypeError: float(complex)) *)
 Theorem C17_scalar_assign : forall d r inp, In d sdoc_table -> find_setter (sd_class d) (sd_attr d) = Some r ->
-  inp <> SComplex ->
   assign_scalar r inp = if sdoc_accepts d inp
                         then SStored (match inp with SReal q => Some q | _ => None end) else SRejected.
 Proof. exact scalar_assign_lemma. Qed.
 Print Assumptions C17_scalar_assign.
 
-(* ... and on complex numbers the faithful model raises a foreign exception (float(complex) -> TypeError) *)
-Theorem C17_scalar_complex_refuted : forall d r, In d sdoc_table -> find_setter (sd_class d) (sd_attr d) = Some r ->
-  sdoc_accepts d SComplex = false /\ assign_scalar r SComplex = SCrashed.
-Proof. intros d r Hin Hf. split; [reflexivity|]. exact (scalar_complex_crashes_lemma d r Hin Hf). Qed.
-Print Assumptions C17_scalar_complex_refuted.
+Example C17_scalar_assign_nonvacuous : exists r, find_setter "Sphere" "diameter" = Some r /\
+  assign_scalar r SComplex = SRejected /\ assign_scalar r (SReal (-1 # 2)) = SRejected /\
+  assign_scalar r (SReal (3 # 2)) = SStored (Some (3 # 2)) /\ assign_scalar r SNone = SStored None.
+Proof. eexists. split; [vm_compute; reflexivity|]. repeat split. Qed.
 
-(* Sensor.handedness: strings are accepted iff "right"/"left", other hashable values rejected ... *)
-Theorem C17_handedness_partial : exists r, find_setter "Sensor" "handedness" = Some r /\
-  (forall s, assign_member r (MStr s) = if str_mem s ["right"; "left"] then Ok else Bad) /\
-  assign_member r MHashable = Bad.
-Proof. destruct handedness_row as [r [H1 [H2 [H3 _]]]]. exists r. auto. Qed.
-Print Assumptions C17_handedness_partial.
-
-(* ... but an unhashable value (list, dict, ndarray) makes the set-membership test raise TypeError *)
-Theorem C17_handedness_unhashable_refuted : exists r, find_setter "Sensor" "handedness" = Some r /\
-  assign_member r MUnhashable = Crash.
-Proof. destruct handedness_row as [r [H1 [_ [_ H4]]]]. exists r. auto. Qed.
-Print Assumptions C17_handedness_unhashable_refuted.
+(* Sensor.handedness, every value: strings are accepted iff "right"/"left"; every other value, hashable or not
+   (list, dict, ndarray), is rejected with the library's input error (before /repo 11ae763 an unhashable value made
+   the set-membership test raise TypeError) *)
+Theorem C17_handedness : exists r, find_setter "Sensor" "handedness" = Some r /\
+  forall inp, assign_member r inp =
+    match inp with MStr s => if str_mem s ["right"; "left"] then Ok else Bad | _ => Bad end.
+Proof. exact handedness_row. Qed.
+Print Assumptions C17_handedness.
 
 (* accepted values are stored unchanged: same entries, same shape (position: reshaped to (-1,3)) *)
 Theorem C17_stored_faithfully : forall r s vals s' vals',
